@@ -1,0 +1,16 @@
+//go:build verif
+
+package olric
+
+import "github.com/olric-data/olric/internal/cluster/partitions"
+
+// VerifSmartPick reports which member the ClusterClient would send a request
+// for (dmap, key) to, according to the routing table it holds right now, and
+// the partition id it computes for the key.
+func (cl *ClusterClient) VerifSmartPick(dmap, key string) (partID uint64, addr string, err error) {
+	rc, err := cl.smartPick(dmap, key)
+	if err != nil {
+		return 0, "", err
+	}
+	return partitions.HKey(dmap, key) % cl.partitionCount, rc.Options().Addr, nil
+}
